@@ -46,9 +46,23 @@ type c14Dg struct {
 
 // c14Inner is the in-memory inner conn: ReadFrom pops queued datagrams (error when empty, so that
 // ReadFrom of the conn under test returns instead of blocking), WriteTo records.
+//
+// Inner write errors: fault (when set) is asked for every datagram handed down; when it answers true the
+// datagram does NOT reach the wire and WriteTo returns an error.  calls counts the WriteTo calls since the
+// last reset, failedAt is the index of the first refused call (-1: none), refused the datagrams refused.
 type c14Inner struct {
-	q    []c14Dg
-	sent [][]byte
+	q        []c14Dg
+	sent     [][]byte
+	fault    func(p []byte, call int) bool
+	calls    int
+	failedAt int
+	refused  [][]byte
+}
+
+var errC14Write = errors.New("c14: sendto: no buffer space available")
+
+func (c *c14Inner) resetWrites() {
+	c.sent, c.refused, c.calls, c.failedAt = nil, nil, 0, -1
 }
 
 func (c *c14Inner) ReadFrom(p []byte) (int, net.Addr, error) {
@@ -61,6 +75,15 @@ func (c *c14Inner) ReadFrom(p []byte) (int, net.Addr, error) {
 }
 
 func (c *c14Inner) WriteTo(p []byte, _ net.Addr) (int, error) {
+	call := c.calls
+	c.calls++
+	if c.fault != nil && c.fault(p, call) {
+		if len(c.refused) == 0 {
+			c.failedAt = call
+		}
+		c.refused = append(c.refused, append([]byte(nil), p...))
+		return 0, errC14Write
+	}
 	c.sent = append(c.sent, append([]byte(nil), p...))
 	return len(p), nil
 }
@@ -80,6 +103,12 @@ type c14MsgSpec struct {
 	A     uint64 `json:"a"`
 	B     uint64 `json:"b"`
 	First int    `json:"first"`
+	// inner write error injected into this WriteTo call: "" none; for a long-header packet the refused
+	// datagram is the chunk with index 0 ("first"), total-1 ("last"), 1+fi%(total-2) ("mid", = last when
+	// total is 2), fi%total ("idx"); "call": the fi-th inner WriteTo call of this WriteTo (never reached when
+	// fi >= total).  A short-header packet has one datagram: any kind but "call" with fi > 0 refuses it.
+	Fk string `json:"fk"`
+	Fi int    `json:"fi"`
 }
 
 func (m c14MsgSpec) build() []byte {
@@ -113,6 +142,10 @@ type c14Case struct {
 	Must     [][2]int     `json:"must"` // (message index, source) pairs that must be delivered
 	Distinct bool         `json:"distinct"`
 	Hex      string       `json:"hex"`
+	// AutoMust: the harness itself lists what must be delivered: every long-header packet whose WriteTo returned
+	// success, at every source from which all of its frames are fed (the generator keeps such histories
+	// inside one TTL window with at most 7 message ids per source, so nothing may be refused or expired)
+	AutoMust bool `json:"automust"`
 }
 
 const c14PSK = "c14-verif-password"
@@ -190,7 +223,7 @@ func c14Dec(c c14Case, res map[string]any) {
 }
 
 func c14Cfg(c c14Case, res map[string]any) {
-	inner := &c14Inner{}
+	inner := &c14Inner{failedAt: -1}
 	var pc net.PacketConn
 	var err error
 	p, msg := vCatch(func() {
@@ -258,14 +291,26 @@ func c14Census(g *geckoPacketConn) string {
 
 func c14Seq(c c14Case, res map[string]any) {
 	ok, why := true, ""
+	var fails []string // every distinct clause that failed (the first one is the verdict's reason)
 	fail := func(s string) {
 		if ok {
 			ok, why = false, s
+		}
+		if len(fails) < 8 {
+			for _, f := range fails {
+				if f == s {
+					return
+				}
+			}
+			fails = append(fails, s)
 		}
 	}
 	defer func() {
 		res["ok"] = ok
 		res["why"] = why
+		if len(fails) > 1 {
+			res["fails"] = fails
+		}
 	}()
 
 	// ---------------- sender side
@@ -277,7 +322,7 @@ func c14Seq(c c14Case, res map[string]any) {
 	senders := make([]sender, len(c.Senders))
 	var minPkt, maxPkt int
 	for i, s := range c.Senders {
-		inner := &c14Inner{}
+		inner := &c14Inner{failedAt: -1}
 		pc, err := WrapPacketConnGecko(inner, GeckoOptions{Password: []byte(c14PSK), MinPacketSize: c.Omin, MaxPacketSize: c.Omax})
 		if err != nil {
 			res["cfg"] = false
@@ -301,34 +346,95 @@ func c14Seq(c c14Case, res map[string]any) {
 	res["max"] = maxPkt
 	pkts := make([][]byte, len(c.Msgs))
 	frames := make([][][]byte, len(c.Msgs))
+	wrote := make([]bool, len(c.Msgs)) // WriteTo returned success
 	var mouts []map[string]any
+	deob := func(w []byte) []byte {
+		f := make([]byte, 4096)
+		k := ob.Deobfuscate(w, f)
+		return append([]byte(nil), f[:k]...)
+	}
+	// the harness's own record of the message ids seen on the wire, per sender: (position of the write among the
+	// sender's long-header writes, id).  Two long-header writes less than 256 writes apart must not share an id,
+	// whether or not either of them failed half-way.
+	type idRec struct {
+		seq int
+		id  uint8
+		mi  int
+	}
+	idHist := make([][]idRec, len(senders))
+	var idWhys []string // reported after the receiver's verdicts, so that a lost / corrupted delivery is named first
+	longSeq := make([]int, len(senders))
 	for mi, ms := range c.Msgs {
 		p := ms.build()
 		pkts[mi] = p
 		s := senders[ms.Snd]
 		before := s.g.msgID.Load()
-		s.inner.sent = nil
+		s.inner.resetWrites()
+		s.inner.fault = nil
+		if ms.Fk != "" {
+			long := len(p) > 0 && p[0]&0x80 != 0
+			fired := false
+			s.inner.fault = func(w []byte, call int) bool {
+				if fired {
+					return false
+				}
+				hitNow := false
+				if ms.Fk == "call" {
+					hitNow = call == ms.Fi
+				} else if !long {
+					hitNow = true
+				} else if f := deob(w); len(f) >= 5 && f[0]&0x80 != 0 {
+					idx, tot := int(f[2]>>4), int(f[2]&0x0f)
+					switch ms.Fk {
+					case "first":
+						hitNow = idx == 0
+					case "last":
+						hitNow = idx == tot-1
+					case "mid":
+						if tot > 2 {
+							hitNow = idx == 1+ms.Fi%(tot-2)
+						} else {
+							hitNow = idx == 1
+						}
+					case "idx":
+						hitNow = tot > 0 && idx == ms.Fi%tot
+					}
+				}
+				fired = fired || hitNow
+				return hitNow
+			}
+		}
 		orig := append([]byte(nil), p...)
 		n, err := s.g.WriteTo(p, c14Addr(1000000))
+		s.inner.fault = nil
 		if !bytes.Equal(p, orig) {
 			fail("WriteTo modified the caller's packet")
 		}
-		mo := map[string]any{"n": n, "err": err != nil}
+		faulted := s.inner.failedAt >= 0
+		wrote[mi] = err == nil
+		mo := map[string]any{"n": n, "err": err != nil, "fail": s.inner.failedAt, "ref": ""}
 		var fhex []string
 		var wire []int
 		for _, w := range s.inner.sent {
 			wire = append(wire, len(w))
-			f := make([]byte, 4096)
-			k := ob.Deobfuscate(w, f)
-			f = f[:k]
-			frames[mi] = append(frames[mi], append([]byte(nil), f...))
+			f := deob(w)
+			frames[mi] = append(frames[mi], f)
 			fhex = append(fhex, vHex(f))
+		}
+		var refused []byte
+		if faulted {
+			refused = deob(s.inner.refused[0])
+			mo["ref"] = vHex(refused)
 		}
 		mo["frames"] = fhex
 		mo["wire"] = wire
 		mouts = append(mouts, mo)
 		// property verdict, sender side
-		if err != nil || n != len(p) {
+		if faulted {
+			if err == nil {
+				fail("WriteTo reported success although the inner conn refused one of the packet's datagrams")
+			}
+		} else if err != nil || n != len(p) {
 			fail("WriteTo did not report the whole packet as written")
 		}
 		if len(p) == 0 {
@@ -338,7 +444,11 @@ func c14Seq(c c14Case, res map[string]any) {
 			continue
 		}
 		if p[0]&0x80 == 0 {
-			if len(frames[mi]) != 1 || !bytes.Equal(frames[mi][0], p) {
+			if faulted {
+				if len(frames[mi]) != 0 {
+					fail("short-header packet refused by the inner conn still produced a datagram")
+				}
+			} else if len(frames[mi]) != 1 || !bytes.Equal(frames[mi][0], p) {
 				fail("short-header packet not passed through unchanged as one datagram")
 			}
 			if s.g.msgID.Load() != before {
@@ -347,8 +457,22 @@ func c14Seq(c c14Case, res map[string]any) {
 			continue
 		}
 		nf := len(frames[mi])
-		if nf < 2 || nf > 8 {
-			fail("long-header packet sent in " + strconv.Itoa(nf) + " chunks (want 2..8)")
+		// number of chunks of this message: the frames on the wire when the write went through, else what the
+		// header of the first frame handed down announces
+		tot := nf
+		if faulted {
+			tot = 0
+			if nf > 0 && len(frames[mi][0]) >= 5 {
+				tot = int(frames[mi][0][2] & 0x0f)
+			} else if len(refused) >= 5 {
+				tot = int(refused[2] & 0x0f)
+			}
+			if nf != s.inner.failedAt {
+				fail("datagrams were handed down after the inner conn had refused one")
+			}
+		}
+		if tot < 2 || tot > 8 {
+			fail("long-header packet sent in " + strconv.Itoa(tot) + " chunks (want 2..8)")
 		}
 		wantID := uint8(before + 1)
 		var cat []byte
@@ -365,7 +489,7 @@ func c14Seq(c c14Case, res map[string]any) {
 			if f[1] != wantID {
 				fail("frame carries message id " + strconv.Itoa(int(f[1])) + ", want " + strconv.Itoa(int(wantID)))
 			}
-			if int(f[2]>>4) != fi || int(f[2]&0x0f) != nf {
+			if int(f[2]>>4) != fi || int(f[2]&0x0f) != tot {
 				fail("frame index/total wrong")
 			}
 			chunk := f[5+pad:]
@@ -375,16 +499,39 @@ func c14Seq(c c14Case, res map[string]any) {
 					fail("datagram of " + strconv.Itoa(wire[fi]) + " bytes outside [" + strconv.Itoa(minPkt) + "," + strconv.Itoa(maxPkt) + "] although chunk of " + strconv.Itoa(len(chunk)) + " fits")
 				}
 			}
+			if fi == 0 {
+				// ids on the wire, independent of the implementation's counter
+				for _, r := range idHist[ms.Snd] {
+					if d := longSeq[ms.Snd] - r.seq; d > 0 && d < 256 && r.id == f[1] {
+						idWhys = append(idWhys, "long-header packet "+strconv.Itoa(mi)+" went out under message id "+strconv.Itoa(int(f[1]))+", the id of packet "+strconv.Itoa(r.mi)+
+							" written "+strconv.Itoa(d)+" long-header write(s) earlier, whose chunk(s) reached the wire")
+						break
+					}
+				}
+				idHist[ms.Snd] = append(idHist[ms.Snd], idRec{longSeq[ms.Snd], f[1], mi})
+			}
 		}
-		if !bytes.Equal(cat, p) {
-			fail("chunks do not concatenate to the packet")
+		longSeq[ms.Snd]++
+		if !faulted {
+			if !bytes.Equal(cat, p) {
+				fail("chunks do not concatenate to the packet")
+			}
+		} else if tot >= 2 {
+			// the chunks that went out before the error are the first nf pieces of the packet cut in tot
+			want := p
+			if nf < tot {
+				want = p[:nf*(len(p)/tot)]
+			}
+			if !bytes.Equal(cat, want) {
+				fail("chunks sent before the write error are not the leading chunks of the packet")
+			}
 		}
 	}
 	res["msgs"] = mouts
 
 	// ---------------- receiver side
 	t0 := time.Now()
-	rin := &c14Inner{}
+	rin := &c14Inner{failedAt: -1}
 	g := newGeckoPacketConn(rin, minPkt, maxPkt)
 	defer g.Close()
 	synctest.Wait() // gcLoop has created its ticker at t0
@@ -498,10 +645,15 @@ func c14Seq(c c14Case, res map[string]any) {
 			if op.O == "x" && len(dg) > 0 {
 				dg[op.At%len(dg)] = byte(op.V)
 			}
+		case "e":
+			// frame with exactly this index, nothing (an empty datagram) when the message has fewer frames on the wire
+			if fs := frames[op.M]; op.I < len(fs) {
+				dg = append([]byte(nil), fs[op.I]...)
+			}
 		case "p":
 			dg = vUnhex(op.H)
 		}
-		if op.O == "f" || op.O == "x" || op.O == "p" {
+		if op.O == "f" || op.O == "x" || op.O == "p" || op.O == "e" {
 			src := c14Addr(op.S)
 			// expectation for no-lock-out, computed before the step
 			expectKey := false
@@ -563,7 +715,7 @@ func c14Seq(c c14Case, res map[string]any) {
 						fail("short-header packet not passed through unchanged")
 					}
 				} else {
-					hit := false
+					hit, hitWritten := false, false
 					for mi, p := range pkts {
 						w := p
 						if len(w) > len(rbuf) {
@@ -571,13 +723,16 @@ func c14Seq(c c14Case, res map[string]any) {
 						}
 						if len(p) > 0 && p[0]&0x80 != 0 && bytes.Equal(outp, w) {
 							hit = true
-							if op.O == "f" && op.M == mi {
+							hitWritten = hitWritten || wrote[mi]
+							if (op.O == "f" || op.O == "e") && op.M == mi {
 								delivered[[2]int{mi, op.S}] = true
 							}
 						}
 					}
 					if c.Distinct && !hit {
 						fail("reassembler emitted a packet that was never sent (step " + strconv.Itoa(si) + ")")
+					} else if c.Distinct && !hitWritten {
+						fail("reassembler emitted a packet whose write failed before all of its chunks were sent (step " + strconv.Itoa(si) + ")")
 					}
 				}
 			} else if err != errC14Empty {
@@ -653,9 +808,46 @@ func c14Seq(c c14Case, res map[string]any) {
 		return final[i][1] < final[j][1]
 	})
 	res["final"] = final
-	for _, m := range c.Must {
-		if !delivered[m] {
-			fail("message " + strconv.Itoa(m[0]) + " from source " + strconv.Itoa(m[1]) + " was not delivered although all its chunks arrived in time")
+	must := c.Must
+	if c.AutoMust {
+		// every long-header packet whose WriteTo returned success must come out at every source from which all
+		// of its frames were fed
+		for mi, p := range pkts {
+			if !wrote[mi] || len(p) == 0 || p[0]&0x80 == 0 || len(frames[mi]) == 0 {
+				continue
+			}
+			fed := map[int]map[int]bool{}
+			for _, op := range c.Ops {
+				if (op.O == "f" || op.O == "e") && op.M == mi {
+					if fed[op.S] == nil {
+						fed[op.S] = map[int]bool{}
+					}
+					if op.O == "f" {
+						fed[op.S][op.I%len(frames[mi])] = true
+					} else if op.I < len(frames[mi]) {
+						fed[op.S][op.I] = true
+					}
+				}
+			}
+			var srcs []int
+			for src, set := range fed {
+				if len(set) == len(frames[mi]) {
+					srcs = append(srcs, src)
+				}
+			}
+			sort.Ints(srcs)
+			for _, src := range srcs {
+				must = append(must, [2]int{mi, src})
+			}
 		}
+		res["must"] = must
+	}
+	for _, m := range must {
+		if !delivered[m] {
+			fail("message " + strconv.Itoa(m[0]) + " from source " + strconv.Itoa(m[1]) + " was not delivered although its write succeeded and all its chunks arrived in time")
+		}
+	}
+	for _, w := range idWhys {
+		fail(w)
 	}
 }
